@@ -114,14 +114,15 @@ Definition hexval (c : N) : option N :=
   else if (65 <=? c) && (c <=? 70) then Some (c - 55)
   else None.
 
-(* unquote_results with convert_whitespace_escapes (both default True): the body
-   is re-scanned with
-     (\\t|\\n|\\f|\\r) | (\\[0-7]3|\\0|\\x[0-9a-fA-F]2|\\u[0-9a-fA-F]4) | (<esc>.) | (\n|.)
+(* Single quotes: QuotedString(SQ, convert_whitespace_escapes=False), no escape
+   character: the body is re-scanned with (.)|(\n|.), i.e. taken verbatim.
+   Double quotes: unquote_results with convert_whitespace_escapes (both default
+   True): the body is re-scanned with
+     (\\t|\\n|\\f|\\r) | (\\[0-7]3|\\0|\\x[0-9a-fA-F]2|\\u[0-9a-fA-F]4) | (\\.) | (\n|.)
    (pyparsing 3.3.2 writes {3} {2} {4} inside an rf-string, so the pattern
-   contains the digits 3, 2, 4, not repetition counts); <esc> is the escape
-   character (double quotes) or empty (single quotes).
-   [unq_esc esc r]: r is the text after a backslash; result = emitted text and
-   how many characters of r are consumed; None = the backslash stands for itself. *)
+   contains the digits 3, 2, 4, not repetition counts).
+   [unq_esc r]: r is the text after a backslash; result = emitted text and how
+   many characters of r are consumed; None = the backslash stands for itself. *)
 Definition ws_escape (d : N) : option N :=
   if d =? 116 then Some 9 else if d =? 110 then Some 10
   else if d =? 102 then Some 12 else if d =? 114 then Some 13 else None.
@@ -136,7 +137,7 @@ Definition hex_escape (d : N) (r1 : str) : option (str * nat) :=
   | _, _ => None
   end.
 
-Definition unq_esc (esc : bool) (r : str) : option (str * nat) :=
+Definition unq_esc (r : str) : option (str * nat) :=
   match r with
   | [] => None
   | d :: r1 =>
@@ -148,24 +149,24 @@ Definition unq_esc (esc : bool) (r : str) : option (str * nat) :=
       else if d =? 48 then Some ([0], 1%nat)
       else match hex_escape d r1 with
            | Some x => Some x
-           | None => if esc && negb (d =? 10) then Some ([d], 1%nat) else None
+           | None => if negb (d =? 10) then Some ([d], 1%nat) else None
            end
     end
   end.
 
 (* [skip] characters are still to be dropped (consumed by the last escape) *)
-Fixpoint unq (esc : bool) (skip : nat) (s : str) : str :=
+Fixpoint unq (skip : nat) (s : str) : str :=
   match s with
   | [] => []
   | c :: r =>
     match skip with
-    | S k => unq esc k r
+    | S k => unq k r
     | O => if c =? 92
-           then match unq_esc esc r with
-                | Some (out, k) => out ++ unq esc k r
-                | None => c :: unq esc 0 r
+           then match unq_esc r with
+                | Some (out, k) => out ++ unq k r
+                | None => c :: unq 0 r
                 end
-           else c :: unq esc 0 r
+           else c :: unq 0 r
     end
   end.
 
@@ -227,12 +228,12 @@ Definition p_sx_body (arg : str -> pres sexpr) (s : str) : pres sexpr :=
   | c :: r =>
     if c =? 39 then
       match scan_sq r with
-      | Some (b, r') => POk (SLit (unq false 0 b) false) r'
+      | Some (b, r') => POk (SLit b false) r'                (* verbatim *)
       | None => PFail
       end
     else if c =? 34 then
       match scan_dq r with
-      | Some (b, r') => POk (SLit (unq true 0 b) true) r'
+      | Some (b, r') => POk (SLit (unq 0 b) true) r'
       | None => PFail
       end
     else if is_alpha c then p_call arg (c :: r)
@@ -491,17 +492,9 @@ Fixpoint dq_body (b : str) : bool :=
     else negb ((c =? 34) || (c =? 10) || (c =? 13)) && dq_body r
   end.
 
-(* no backslash of s starts one of the escapes pyparsing converts in single quotes *)
-Fixpoint sq_plain (s : str) : bool :=
-  match s with
-  | [] => true
-  | c :: r => (if c =? 92 then match unq_esc false r with None => true | Some _ => false end else true)
-              && sq_plain r
-  end.
-
 Fixpoint wf_sx (e : sexpr) : bool :=
   match e with
-  | SLit s d => if d then true else sq_body s && sq_plain s
+  | SLit s d => if d then true else sq_body s
   | SFn name args => wf_name name && forallb wf_sx args
   end.
 
@@ -520,9 +513,9 @@ Definition all_ws (w : str) : Prop := forallb is_ws w = true.
 
 Inductive rend_sx : sexpr -> str -> Prop :=
 | RSq : forall w b, all_ws w -> sq_body b = true ->
-    rend_sx (SLit (unq false 0 b) false) (w ++ 39 :: b ++ [39])
+    rend_sx (SLit b false) (w ++ 39 :: b ++ [39])
 | RDq : forall w b, all_ws w -> dq_body b = true ->
-    rend_sx (SLit (unq true 0 b) true) (w ++ 34 :: b ++ [34])
+    rend_sx (SLit (unq 0 b) true) (w ++ 34 :: b ++ [34])
 | RFn : forall w name w1 args sargs w2,
     all_ws w -> wf_name name = true -> all_ws w1 -> rend_args args sargs -> all_ws w2 ->
     rend_sx (SFn name args) (w ++ name ++ w1 ++ 40 :: sargs ++ w2 ++ [41])
